@@ -22,7 +22,7 @@ MANIFEST = dict(
     category="proof",
     text="Coq theorems over a hand-written model of the executor's refcounted binary heap (all 24 instruction handlers, the select machine, notify_message/result/spawn, spawn_process, frame auto-pop and completion, replace_locals / release_orphan_locals): refcounts equal the exact number of occurrences in all roots after every choke point and every handler, between time slices (refcount_exact; partial: see note), a freed slot is referenced by no root (no_use_after_free), process_pending_free frees exactly queued slots with count 0 and leaves no counted-then-dropped slot unreclaimed (reclaim_sound / reclaim_complete), bytes of a slot reachable before and after a step are unchanged including in-place materialize and slot reuse (bytes_stable), inject(extract v) denotes the same bytes on the receiving heap (transfer_copies). The F9 leak is exhibited as refuted witnesses for the code as found and the repaired handlers are proved. Validated, not proved: that the model is the code (differential execution of the extracted model against real Executors after every operation) and the oracle on the real code at all quanta.",
     design_ref="§5 C06",
-    note="partial: the exact-count invariant is proved for every choke point, heap primitive and executor-level operation named in props/C06.v; handlers proved as compositions are listed there (the select machine with filters is covered by correspondence + oracle, its theorem is stated for the repaired code). Debug-build semantics (debug_assert = panic). Scheduling state (queue / parked sets) is not modelled: which process runs is an input. Known: F9 (awaiting / receiving overwritten without release).",
+    note="Known findings routed: F9, F46 (spawn_process orphan slots), F45h (Ok result overwritten by a propagated error). partial: the exact-count invariant is proved for every choke point, heap primitive and executor-level operation named in props/C06.v; handlers proved as compositions are listed there (the select machine with filters is covered by correspondence + oracle, its theorem is stated for the repaired code). Debug-build semantics (debug_assert = panic). Scheduling state (queue / parked sets) is not modelled: which process runs is an input. Known: F9 (awaiting / receiving overwritten without release).",
     technique="Coq proof (multiset counting invariant, delta form per handler) + extraction + differential execution against the real executor after every operation + real-code oracle (check_refcounts, use-after-free, shadow bytes) under generated schedules and quanta down to 1",
 )
 
@@ -41,6 +41,8 @@ class Gen:
         self.procs = []    # (name, kind) kind: 'result-bin' | 'echo' | 'filter' | 'pair'
         self.n = 0
         self.feat = set()
+        self.awaited = set()
+        self.allow_f9 = False
 
     def fresh(self, p):
         self.n += 1
@@ -149,11 +151,12 @@ class Gen:
         self.feat.add("spawn-arg")
 
     def await_(self):
-        ps = [p for p in self.procs if p[1] == "result"]
+        ps = [p for p in self.procs if p[1] == "result" and p[0] not in self.awaited]
         if not ps:
             return self.spawn_captures()
         p = self.r.choice(ps)
         v = self.fresh("r")
+        self.awaited.add(p[0])
         self.stmts.append("!%s =%s" % (p[0], v))
         self.feat.add("await")
 
@@ -164,6 +167,7 @@ class Gen:
             self.spawn_captures()
             ps = [p for p in self.procs if p[1] == "result"]
         p = self.r.choice(ps)
+        self.awaited.add(p[0])
         self.stmts.append("!%s =%s" % (p[0], self.fresh("r")))
         self.stmts.append("! [%s, 1000] =%s" % (p[0], self.fresh("r")))
         self.feat.add("await-twice")
@@ -208,8 +212,9 @@ class Gen:
         self.stmts.append("%s = @#{ [%s, 0x01] __binary_concat__ }" % (p1, a[0]))
         self.stmts.append("%s = @#{ %s }" % (p2, a[0]))
         self.stmts.append("! [%s, %s] =%s" % (p1, p2, self.fresh("r")))
-        if self.r.random() < 0.5:
+        if self.allow_f9 and self.r.random() < 0.5:
             self.stmts.append("! [%s, %s, 100] =%s" % (p2, p1, self.fresh("r")))
+        self.awaited |= {p1, p2}
         self.procs += [(p1, "result"), (p2, "result")]
         self.feat.add("race")
 
@@ -222,6 +227,7 @@ class Gen:
         self.stmts.append("%s %s" % (a[0], p))
         self.stmts.append("!%s =%s" % (q, self.fresh("r")))
         self.procs.append((p, "result"))
+        self.awaited.add(q)
         self.feat.add("relay")
 
     MENU = [("concat", 5), ("slice", 5), ("dup", 2), ("drop", 3), ("tuple", 3), ("get", 3), ("closure_call", 3),
@@ -230,6 +236,7 @@ class Gen:
 
     def build(self, nstmts, allow_f9):
         names = [m for m, w in self.MENU for _ in range(w)]
+        self.allow_f9 = allow_f9
         if allow_f9:
             names += ["await_twice"] * 2
         self.new_const()
@@ -278,6 +285,8 @@ def classify(status, detail, stats):
     if status == "oracle":
         return ("violation", "oracle failed on the real code: " + detail[:300])
     if status in ("ok", "limit"):
+        if int(stats.get("orphans", "0")) > int(stats.get("orphans-spawn", "0")):
+            return ("violation", "heap slots left allocated with count 0 and never queued for reclamation (not explained by spawn_process)")
         if int(stats.get("f9", "0")) > 0 or ledger:
             return ("F9", "reference leaked by an awaiting/receiving overwrite without release (exact count off by the displaced value)")
         if int(stats.get("resover", "0")) > 0:
@@ -335,7 +344,7 @@ def run(ctx):
 
     # ---------------- generated programs
     nprog = ctx.n(150, 2500)
-    nsched_oracle = ctx.n(6, 24)
+    nsched_oracle = ctx.n(5, 24)
     programs = []
     for i in range(nprog):
         g = Gen(rng)
@@ -389,7 +398,7 @@ def run(ctx):
     hist_feat = {}
     agree = agree_fixed = disagree = 0
     ops_compared = 0
-    f9_cases = resover_cases = 0
+    f9_cases = resover_cases = f46_cases = 0
     distinct = set()
     nontrivial = 0
     samples = []
@@ -427,6 +436,12 @@ def run(ctx):
             samples.append({"source": programs[meta["prog"]][0], "workers": meta["workers"], "quantum": meta["quantum"],
                             "sched": meta["sched"], "status": status, "stats": stats})
         cl = classify(status, detail, stats)
+        if int(stats.get("orphans-spawn", "0")) > 0:
+            # F46 (known): spawn_process injects the whole heap bundle once per capture and once for
+            # the argument; the copies it does not reference stay allocated with count 0
+            f46_cases += 1
+            ctx.violation({"kind": "impl-violation", "what": "spawn_process leaves orphan heap slots (count 0, not freed, not queued)",
+                           "case": line, "stats": stats}, finding_key="F46")
         if cl is not None:
             kind, what = cl
             obj = {"kind": "impl-violation", "what": what, "case": line, "detail": detail, "stats": stats}
@@ -485,7 +500,7 @@ def run(ctx):
         "model_operations_compared": ops_compared,
         "model_agrees_as_found": agree, "model_agrees_only_with_F9_repaired": agree_fixed,
         "disagreements_checked": disagree + bad,
-        "f9_runs": f9_cases, "result_overwrite_runs": resover_cases, "f28_probes": len(f28), "f28_bad": f28_bad,
+        "f9_runs": f9_cases, "f45h_result_overwrite_runs": resover_cases, "f46_orphan_runs": f46_cases, "f28_probes": len(f28), "f28_bad": f28_bad,
         "histogram_quantum": {str(k): v for k, v in sorted(hist_q.items(), key=lambda x: str(x[0]))},
         "histogram_workers": {str(k): v for k, v in sorted(hist_w.items(), key=lambda x: str(x[0]))},
         "histogram_program_features": hist_feat,
